@@ -123,6 +123,37 @@ class Obs:
         return f"sent={sent} cb={cbs} exc={self.exc or 'none'} ns={self.need_save} st={self.state} ota={self.ota}"
 
 
+def real_update_fw(gw, nids, fwt, fwv, image):
+    """A firmware update requested the way a user does it: Gateway.update_fw -> Tasks.update_fw -> load_fw
+    (Intel HEX file written with the intelhex library) -> OTAFirmware.make_update.  An image that is not a
+    non-empty byte string of moderate size cannot be handed over as a file and goes to make_update directly."""
+    import asyncio
+    path = None
+    if image is not None:
+        if not (isinstance(image, bytes) and 0 < len(image) <= 8192):
+            gw.tasks.ota.make_update(nids, fwt, fwv, image)
+            return
+        from intelhex import IntelHex
+        ihex = IntelHex()
+        ihex.frombytes(image)
+        fd, path = tempfile.mkstemp(prefix="verif-fw-", suffix=".hex")
+        with os.fdopen(fd, "w", encoding="utf-8") as fh:
+            ihex.write_hex_file(fh)
+    try:
+        if asyncio.iscoroutinefunction(gw.update_fw):
+            loop = asyncio.new_event_loop()
+            try:
+                loop.run_until_complete(gw.update_fw(nids, fwt, fwv, fw_path=path))
+                loop.run_until_complete(loop.shutdown_default_executor())
+            finally:
+                loop.close()
+        else:
+            gw.update_fw(nids, fwt, fwv, fw_path=path)
+    finally:
+        if path is not None:
+            os.unlink(path)
+
+
 class RealGW:
     """Runs ops on the real library, inline pump (the asyncio flavour's add_job)."""
 
@@ -203,8 +234,8 @@ class RealGW:
                     self.gw.set_child_value(node, child, vtype, value, ack=ack)
             elif kind == "U":
                 _, nids, fwt, fwv, image = op
-                self.gw.tasks.ota.make_update(list(nids) if isinstance(nids, (list, tuple)) else nids,
-                                              fwt, fwv, image)
+                real_update_fw(self.gw, list(nids) if isinstance(nids, (list, tuple)) else nids,
+                               fwt, fwv, image)
             elif kind == "T":
                 self.clock = op[1]
             elif kind == "M":
